@@ -329,11 +329,12 @@ def run(tier):
         cap = 0
     if cap > 0:
         workers = min(workers, cap)
-    rep.rule = ("tabling: digraphs on 3 nodes (quick: all 512 for the left-recursive definition in 2 call orders, those with <= 3 or "
-                ">= 8 edges for right/double/mutual; thorough: all 512 x 5 definitions x 2 orders + 1/97 of the digraphs on 4 nodes) x 6 "
-                "call patterns run in sequence on one set of tables; delimited control: 3 generic drivers x bodies of <= 2 items (3 over "
-                "a reduced alphabet) from 16 items, take-k x generator compositions, state handler x command sequences, nested state "
-                "handlers, exceptions through resets. distinct = definition x call pattern x position x sizes, resp. set of constructs x outcome")
+    rep.rule = ("tabling: digraphs on 3 nodes (quick: all 512 for the left-recursive definition, and those with <= 2 or >= 8 edges "
+                "for right/double/mutual recursion and for the second call order; thorough: all 512 x 5 definitions x 2 call orders + "
+                "1/97 of the digraphs on 4 nodes x 5 definitions) x 6 call patterns run in sequence on one set of tables; delimited "
+                "control: 3 generic drivers x bodies of <= 2 items from 16 items (3 items over a reduced alphabet), take-k x generator "
+                "compositions, state handler x command sequences, nested state handlers, exceptions through and after resets. "
+                "distinct = definition x call pattern x position x sizes, resp. set of constructs x outcome")
     res, vecs = generate("MC_C38", "MC_C38_%s.cfg" % tier, workers=workers, timeout=6000, env_extra={"C38_SEED": str(common.seed())})
     rep.add_tlc(res)
     tab = [v for v in vecs if v["part"] == "tab"]
